@@ -46,6 +46,8 @@ struct Initial {
     /// the library's view of the manifest in the initial state, locations blanked: nothing of it
     /// may change along any history
     base: J,
+    /// restricted event alphabet (pack slots, string indices) for initial states with many packs
+    events: Option<(Vec<usize>, Vec<usize>)>,
 }
 
 fn blank_locations(mut m: J) -> J {
@@ -96,6 +98,38 @@ fn patch_group(bytes: &mut Vec<u8>, slots: &[PackSlot], which: usize, group: u8)
     bytes[cip + 1..cip + 33].copy_from_slice(h.as_bytes());
     put_crc(bytes, cip, 33);
     Ok(())
+}
+
+/// A standalone manifest listing `count` content packs (descriptions copied from one real pack,
+/// fresh uuids): a pack-info table of `count + 1` blocks of 256 bytes.
+fn many_packs(dir: &Path, count: u16) -> Result<PathBuf, String> {
+    use jbk::creator;
+    std::fs::create_dir_all(dir).unwrap();
+    let vendor = jbk::VendorId::from(VENDOR);
+    let mut m = creator::ManifestPackCreator::new(vendor, Default::default());
+    let dc = creator::DirectoryPackCreator::new(jbk::PackId::from(0), vendor, Default::default());
+    let mut f = std::fs::OpenOptions::new().read(true).write(true).create(true).truncate(true).open(dir.join("d.jbkd")).map_err(|e| e.to_string())?;
+    let d = dc.finalize().map_err(|e| e.to_string())?.write(&mut f).map_err(|e| e.to_string())?;
+    m.add_pack(d, "d.jbkd");
+    let up = camino::Utf8PathBuf::from_path_buf(dir.join("c.jbkc")).unwrap();
+    let mut c = creator::ContentPackCreator::new(&up, jbk::PackId::from(1), vendor, Default::default(), creator::Compression::None).map_err(|e| e.to_string())?;
+    c.add_content(Box::new(std::io::Cursor::new(b"hello".to_vec())), Default::default()).map_err(|e| e.to_string())?;
+    let (_f, info) = c.finalize().map_err(|e| e.to_string())?;
+    for i in 1..=count {
+        let pd = creator::PackData {
+            uuid: uuid::Uuid::from_u128(0xabcd_0000_0000_0000_0000_0000_0000_0000 + i as u128),
+            pack_size: info.pack_size,
+            pack_kind: info.pack_kind,
+            pack_id: jbk::PackId::from(i),
+            free_data: vec![],
+            check_info: info.check_info,
+        };
+        m.add_pack(pd, format!("content_{i}.jbkc"));
+    }
+    let mpath = dir.join("many.jbkm");
+    let mut f = std::fs::OpenOptions::new().read(true).write(true).create(true).truncate(true).open(&mpath).map_err(|e| e.to_string())?;
+    m.finalize(&mut f).map_err(|e| e.to_string())?;
+    Ok(mpath)
 }
 
 /// A manifest (and a container around it) whose packs carry `free_len` bytes of free data each:
@@ -176,7 +210,7 @@ fn initials(dir: &Path, thorough: bool) -> Result<Vec<Initial>, String> {
     let slots = locate_slots(&bytes)?;
     let locations = read_locations(&bytes, &slots);
     let base = base_dump(dir, "sep", &bytes);
-    out.push(Initial { name: "standalone-manifest".into(), bytes, file_name: "c.jbk".into(), slots, locations, logical: None, base });
+    out.push(Initial { name: "standalone-manifest".into(), bytes, file_name: "c.jbk".into(), slots, locations, logical: None, base, events: None });
     // manifest inside a OneFile container
     let d1 = dir.join("one");
     std::fs::create_dir_all(&d1).unwrap();
@@ -194,9 +228,9 @@ fn initials(dir: &Path, thorough: bool) -> Result<Vec<Initial>, String> {
         }
         let slots2 = locate_slots(&b2)?;
         let base2 = base_dump(dir, "one-groups", &b2);
-        out.push(Initial { name: "onefile-groups".into(), bytes: b2, file_name: "c.jbk".into(), slots: slots2, locations: locations.clone(), logical: Some(l1.clone()), base: base2 });
+        out.push(Initial { name: "onefile-groups".into(), bytes: b2, file_name: "c.jbk".into(), slots: slots2, locations: locations.clone(), logical: Some(l1.clone()), base: base2, events: None });
     }
-    out.push(Initial { name: "onefile".into(), bytes, file_name: "c.jbk".into(), slots, locations, logical: Some(l1.clone()), base });
+    out.push(Initial { name: "onefile".into(), bytes, file_name: "c.jbk".into(), slots, locations, logical: Some(l1.clone()), base, events: None });
     // concat outputs: manifest first / middle / last
     let orders: Vec<Vec<usize>> = if thorough {
         jbkmc::gen::permutations(c.files.len()).into_iter().step_by(7).collect()
@@ -219,7 +253,7 @@ fn initials(dir: &Path, thorough: bool) -> Result<Vec<Initial>, String> {
         let slots = locate_slots(&bytes)?;
         let locations = read_locations(&bytes, &slots);
         let base = base_dump(dir, "cat", &bytes);
-        out.push(Initial { name: format!("concat{order:?}"), bytes, file_name: "cat.jbk".into(), slots, locations, logical: Some(l.clone()), base });
+        out.push(Initial { name: format!("concat{order:?}"), bytes, file_name: "cat.jbk".into(), slots, locations, logical: Some(l.clone()), base, events: None });
     }
     // pack-info table far into the manifest (beyond the 64 KiB / 128 KiB read-buffer sizes):
     // 3 packs x free data of 100 / 30 000 / 70 000 bytes, standalone and inside a concat output
@@ -231,8 +265,23 @@ fn initials(dir: &Path, thorough: bool) -> Result<Vec<Initial>, String> {
             let slots = locate_slots(&bytes)?;
             let locations = read_locations(&bytes, &slots);
             let base = base_dump(dir, "free", &bytes);
-            out.push(Initial { name: format!("free-data-{free}-{nm}"), bytes, file_name: fname.into(), slots, locations, logical: None, base });
+            out.push(Initial { name: format!("free-data-{free}-{nm}"), bytes, file_name: fname.into(), slots, locations, logical: None, base, events: None });
         }
+    }
+    // more than 255 packs (the size of the pack-info table no longer fits 16 bits): a few packs
+    // at both ends and in the middle of the table x three strings
+    for count in if thorough { vec![255u16, 256, 300, 600] } else { vec![300u16] } {
+        let mpath = many_packs(&dir.join(format!("many{count}")), count)?;
+        let bytes = std::fs::read(&mpath).map_err(|e| e.to_string())?;
+        let slots = locate_slots(&bytes)?;
+        let locations = read_locations(&bytes, &slots);
+        let base = base_dump(dir, "many", &bytes);
+        let n = slots.len();
+        let mut packs = vec![0, 1, 2, n / 7, n / 2, n - 257.min(n), n - 256.min(n), n - 255.min(n), n - 2, n - 1];
+        packs.retain(|p| *p < n);
+        packs.sort();
+        packs.dedup();
+        out.push(Initial { name: format!("{count}-packs-manifest"), bytes, file_name: "many.jbkm".into(), slots, locations, logical: None, base, events: Some((packs, vec![0, 1, 6])) });
     }
     Ok(out)
 }
@@ -313,7 +362,7 @@ fn main() {
     let mut rep = Report::new(
         "locmc",
         "C12",
-        "BFS over rewrite histories: state = vector of recorded locations; events = (every pack listed incl. the directory pack, or an unknown uuid) x 10 strings ('', 'a', 'd/e.jbkc' and three other spellings of that path ('d//e.jbkc', 'd/./e.jbkc', 'd/e.jbkc/'), 213 x 'x', 212-byte and 213-byte multi-byte UTF-8); depth 2 (quick) / 3 (thorough) from each initial state (standalone manifest, manifest inside a OneFile container, inside concat outputs with the manifest last / in the middle, the same with non-zero group bytes patched in, and manifests whose pack-info table lies 90 KB / 210 KB into the pack because of per-pack free data, standalone and concatenated); in every state: block CRCs, file structure, locations (independent and library), manifest check(), the library's whole view of the manifest except locations unchanged, container contents; every transition calls the real tools::set_location on a real file; non-trivial = a transition that changes the state",
+        "BFS over rewrite histories: state = vector of recorded locations; events = (every pack listed incl. the directory pack, or an unknown uuid) x 10 strings ('', 'a', 'd/e.jbkc' and three other spellings of that path ('d//e.jbkc', 'd/./e.jbkc', 'd/e.jbkc/'), 213 x 'x', 212-byte and 213-byte multi-byte UTF-8); depth 2 (quick) / 3 (thorough) from each initial state (standalone manifest, manifest inside a OneFile container, inside concat outputs with the manifest last / in the middle, the same with non-zero group bytes patched in, and manifests whose pack-info table lies 90 KB / 210 KB into the pack because of per-pack free data, standalone and concatenated); plus manifests listing 300 packs (thorough 255/256/300/600; rewrites of 10 packs spread over the table x 3 strings); plus, per initial state, every byte of every pack description (outside the location) altered before a rewrite of that pack: the rewrite is refused or the description still reads as created or fails; in every state: block CRCs, file structure, locations (independent and library), manifest check(), the library's whole view of the manifest except locations unchanged, container contents; every transition calls the real tools::set_location on a real file; non-trivial = a transition that changes the state",
     );
     // one child process per group of initial states (--shards N)
     if jbkmc::shard::run_children(&args, &mut rep) {
@@ -361,7 +410,17 @@ fn main() {
             }
             // events: every listed pack + one unknown uuid, every string
             for pk in 0..=nslots {
+                if let Some((packs, _)) = &init.events {
+                    if pk < nslots && !packs.contains(&pk) {
+                        continue;
+                    }
+                }
                 for (si, s) in strs.iter().enumerate() {
+                    if let Some((_, ss)) = &init.events {
+                        if !ss.contains(&si) {
+                            continue;
+                        }
+                    }
                     let mut hist = history.clone();
                     hist.push((pk, si));
                     if let Some(r) = &replay {
@@ -444,6 +503,51 @@ fn main() {
         }
         rep.states += seen.len() as u64;
         rep.extra.insert(format!("states[{}]", init.name), json!(seen.len()));
+        // A rewrite must not put a valid checksum back on a pack description that was damaged:
+        // one byte of the description (outside the location) altered, then a rewrite of that
+        // pack; afterwards the manifest either fails to read or shows the description as created.
+        if replay.is_none() && init.events.is_none() {
+            for (pk, slot) in init.slots.iter().enumerate() {
+                for off in 16..38usize {
+                    let mut bytes = init.bytes.clone();
+                    bytes[slot.info_offset + off] ^= 0x04;
+                    std::fs::write(&path, &bytes).unwrap();
+                    let case = json!({"engine":"locmc","initial":init.name,"damaged_description":{"pack":pk,"byte":off}});
+                    let r = jbkmc::catch(|| jbk::tools::set_location(&path, slot.uuid, jbk::SmallString::from("relocated.jbkc")));
+                    rep.transitions += 1;
+                    let outcome = match r {
+                        Err(p) => {
+                            rep.violation(&format!("C12 set_location panics on a damaged description {}", jbkmc::panic_site(&p)), &p, case.clone());
+                            "panic"
+                        }
+                        Ok(Err(_)) => "rewrite refused (checksum)",
+                        Ok(Ok(None)) => "rewrite: pack not found",
+                        Ok(Ok(Some(_))) => {
+                            // the rewrite went through: the damage must still be reported or be gone
+                            let m = jbkmc::catch(|| dump_manifest(&path)).unwrap_or_else(|e| json!({"err": e}));
+                            let blank = blank_locations(m.clone());
+                            if !is_err(&m) && m.get("packs").is_some() && blank != init.base {
+                                let mut diffs = vec![];
+                                compare(&init.base, &blank, "", &mut diffs);
+                                if let Some(d) = diffs.first() {
+                                    rep.violation(
+                                        "C12 a rewrite re-seals a damaged pack description (read back without error, different from what was created)",
+                                        &format!("{}: pack {pk}, description byte {off} altered before the rewrite: {} reads {} (created {})", init.name, d.path, d.altered, d.pristine),
+                                        case.clone(),
+                                    );
+                                    "damage hidden by the rewrite"
+                                } else {
+                                    "rewrite accepted, description reads as created or fails"
+                                }
+                            } else {
+                                "rewrite accepted, description reads as created or fails"
+                            }
+                        }
+                    };
+                    rep.case(Some(&case.to_string()), outcome);
+                }
+            }
+        }
     }
     rep.traces_validated += rep.transitions;
     rep.note("location strings above 213 bytes are outside the property and not enumerated");
